@@ -1562,7 +1562,7 @@ def oracle_c20(case, res, guard=True):
     for r in js:
         if r[2] != "-" and r[2].split(":")[0] not in known:
             return f"{r[1]}: the opening balance refers to sheet {r[2].split(':')[0]!r}, which is not in the file (sheets {sorted(known)})"
-    return R.oracle_c20(rc, {"status": "ok", "rows": [r for r in res["rows"] if r[0] in ("JS", "JR")]}, guard)
+    return R.oracle_c20(rc, {"status": "ok", "rows": [r for r in res["rows"] if r[0] in ("JS", "JR", "JSUM")]}, guard)
 
 
 ORACLES = {"C01": oracle_c01, "C03": oracle_c03, "C09": oracle_c09, "C05": oracle_c05, "C10": oracle_c10, "C20": oracle_c20, "C02": oracle_c02, "C15": oracle_c15, "C12": oracle_c12, "C13": oracle_c13, "C16": oracle_c16, "C17": oracle_c17, "C18": oracle_c18, "C19": oracle_c19}
